@@ -572,7 +572,7 @@ class C2Beacon(AbstractC2, discriminator="c2-beacon"):
         :rtype bool:
         """
         self.keep_alive_attempted = False  # Resetting keep alive sent.
-        if self.keep_alive_inactivity == self.config.keep_alive_frequency:
+        if self.keep_alive_inactivity >= self.config.keep_alive_frequency:
             self.sys_log.info(
                 f"{self.name}: Attempting to Send Keep Alive to {self.c2_remote_connection} at timestep {timestep}."
             )
